@@ -295,7 +295,18 @@ func (r *run) noVerifyExpected() bool {
 	n := len(r.verifyLog)
 	r.mu.Unlock()
 	if n != r.verifSeen {
-		r.viol("C09", "Verify was called %d time(s) while delayed verification is in force", n-r.verifSeen)
+		r.mu.Lock()
+		rejected := false
+		for _, e := range r.verifyLog[r.verifSeen:] {
+			rejected = rejected || e.err != nil
+		}
+		r.mu.Unlock()
+		tag := "C09"
+		if rejected {
+			// C05 too: during the delay nothing is verified, so the view must follow the latest values
+			tag = "C09,C05"
+		}
+		r.viol(tag, "Verify was called %d time(s) while delayed verification is in force (rejecting=%v)", n-r.verifSeen, rejected)
 		return false
 	}
 	return true
@@ -1047,7 +1058,12 @@ func (r *run) stepEnable() {
 		return
 	}
 	if len(newV) != 1 || newV[0].ptr != cur.ptr {
-		r.viol("C09", "EnableVerification must verify exactly the installed config once; Verify was called %d times (first on %s)", len(newV), func() string {
+		etag := "C09"
+		if err == nil && cur.val.Limit < 0 {
+			// C04 too: verification is now "active" while the visible config never passed Verify
+			etag = "C09,C04"
+		}
+		r.viol(etag, "EnableVerification must verify exactly the installed config once; Verify was called %d times (first on %s)", len(newV), func() string {
 			if len(newV) > 0 {
 				return r.whatPtr(newV[0].ptr)
 			}
